@@ -8,6 +8,7 @@ import (
 	"iter"
 	"strconv"
 	"strings"
+	"sync/atomic"
 	"time"
 
 	eventbus "github.com/jilio/ebu"
@@ -39,6 +40,9 @@ var _ eventbus.SubscriptionStore = (*SQLiteStore)(nil)
 // dbOpener is used to open database connections, injectable for testing
 var dbOpener = sql.Open
 
+// memoryDBSeq numbers the in-memory databases created by New(":memory:")
+var memoryDBSeq atomic.Int64
+
 // New creates a new SQLiteStore with the given path and options.
 //
 // Note: When WithAutoMigrate is enabled (the default), migrations run with
@@ -64,7 +68,9 @@ func New(path string, opts ...Option) (*SQLiteStore, error) {
 	var dsn string
 	if cfg.path == ":memory:" {
 		// Use shared cache mode for in-memory databases to allow multiple connections
-		dsn = "file::memory:?mode=memory&cache=shared"
+		// Each store gets its own named in-memory database: a shared name would make
+		// separately created stores see each other's events.
+		dsn = fmt.Sprintf("file:ebu-memdb-%d?mode=memory&cache=shared", memoryDBSeq.Add(1))
 	} else {
 		dsn = fmt.Sprintf("file:%s?_busy_timeout=%d", cfg.path, cfg.busyTimeout.Milliseconds())
 	}
